@@ -48,7 +48,11 @@ type Form struct {
 	Classes []Class  `json:",omitempty"`
 }
 
-// Op is one use. Tag: T text, R render script, I RenderScriptItems, C RenderCSSItems, E element, O once,
+// Op is one use. Tag: T text, R render script, I RenderScriptItems, C RenderCSSItems, E element, O once
+// (Fixed: self-closing call on a handle built with templ.WithComponent(template with Body); Self: self-closing call on a
+// handle that has no component; otherwise a call with Body as its block),
+// S a call of a component `templ c() { Pre { children... } Post }` (Slot) or `templ c() { Pre Post }`, with Body as
+// its block (Block) or self-closing,
 // D derive a further Go context from the one the use goes through (Text: nonce | children | clear | value | cancel | mw;
 // Nonce for kind nonce; Classes for kind mw: a request carrying the context goes through a further
 // templ.NewCSSMiddleware(next, Classes...) and the derived context is the one its Next handler sees).
@@ -66,7 +70,12 @@ type Op struct {
 	// one, i > 0 the one the i-th D use of this rendering context produced (0 when there is no such one).
 	Via int `json:",omitempty"`
 	Fixed   bool     `json:",omitempty"` // handle created with templ.WithComponent(body) rather than given a block
+	Self    bool     `json:",omitempty"` // self-closing call on a handle that has no component
 	Body    []Op     `json:",omitempty"`
+	Slot    bool     `json:",omitempty"` // Tag S: the called component has { children... } between Pre and Post
+	Block   bool     `json:",omitempty"` // Tag S: the call has a block (Body)
+	Pre     []Op     `json:",omitempty"`
+	Post    []Op     `json:",omitempty"`
 	// probe templates only: Tag "X" is an element whose attributes sit under attribute-level if/else blocks
 	Attrs []PAttr `json:",omitempty"`
 }
@@ -197,8 +206,32 @@ func (o Op) toks(t *[]string) {
 		}
 		*t = append(*t, ".")
 	case "O":
+		switch {
+		case o.Self:
+			(*t)[len(*t)-1] = "Z"
+			*t = append(*t, strconv.Itoa(o.H))
+			return
+		case o.Fixed:
+			(*t)[len(*t)-1] = "F"
+		}
 		*t = append(*t, strconv.Itoa(o.H))
 		for _, b := range o.Body {
+			b.toks(t)
+		}
+		*t = append(*t, ".")
+	case "S":
+		*t = append(*t, b2s(o.Slot))
+		for _, b := range o.Pre {
+			b.toks(t)
+		}
+		*t = append(*t, ".", b2s(o.Block))
+		if o.Block {
+			for _, b := range o.Body {
+				b.toks(t)
+			}
+		}
+		*t = append(*t, ".")
+		for _, b := range o.Post {
 			b.toks(t)
 		}
 		*t = append(*t, ".")
